@@ -90,7 +90,7 @@ CLAIMED.update({
 CLAIMED.update({
  'C03': dict(
    technique='Lean 4 proof: borrowed nodes of the ε-copy result are writer blocks (framing theorem), blocks lie inside the stream (mutual structural induction), and are on their units; allocation measured on the real code under payload scaling',
-   text='Kernel-checked: borrow_sound (every borrowed slice / str / reference of the ε-copy result of a serialized stream is one of the writer blocks — same offset, length and unit — lies between the end of the header and the end of the stream, and its address is a multiple of its unit), vec_borrowed_in_place / string_borrowed_in_place (the result holds the block offset, not a copy, for every length), alloc_payload_independent (model-level allocation count ignores borrowed payloads). The run prints, from the real ε-copy types, pointer − buffer start of every borrowed part and compares with the model offsets; a counting global allocator measures calls and bytes during deserialize_eps for each value and for the same value with every borrowed payload repeated x4, x16, which must be equal.',
+   text='Kernel-checked: borrow_sound (every borrowed slice / str / reference of the ε-copy result of a serialized stream is one of the writer blocks — same offset, length and unit — lies between the end of the header and the end of the stream, and its address is a multiple of its unit), vec_borrowed_in_place / string_borrowed_in_place (the result holds the block offset, not a copy, for every length), eps_alloc_determined (for EVERY input, valid stream or not, base address and position: the allocation count of the result of the ε-copy reader of type T is Ty.allocOf T of the value it describes — a function of the type and of the deep-copy skeleton in which strings, sequences of zero-copy items and zero-copy data contribute nothing whatever they contain; by induction on the type over the reader itself), alloc_independent_of_borrowed_payloads (two well-typed values of one type with the same skeleton Ty.skel — differing only in what is borrowed — cost the same allocations wherever their streams are placed), alloc_payload_independent. The run prints, from the real ε-copy types, pointer − buffer start of every borrowed part and compares with the model offsets; a counting global allocator measures calls and bytes during deserialize_eps for each value and for the same value with every borrowed payload repeated x4, x16, which must be equal; the number of allocator calls must also stay within the model bound 2 + epsAllocs (the two type-name strings of check_header plus one per non-empty rebuilt sequence and fully copied string / sequence).',
    note='real addresses and allocator bytes are runtime facts: the theorem speaks of offsets and of a model-level count, the harness measures pointers and bytes (partial).',
    design='5/C03'),
  'C06': dict(
